@@ -1208,3 +1208,76 @@ _c05_prev5 = harnesses
 
 def harnesses(tier):   # noqa: F811
     return _c05_prev5(tier) + [PartsCarryValue()]
+
+
+# --------------------------------------------------------------------------------------------------------------
+# BigRat::to_string chooses between the two printers; whatever it does with their text, the numeral it hands on must
+# still be a correct numeral for the value - in bases above 14 the letter `e` is a digit as well as the exponent marker.
+
+def _stub_printer(which):
+    def f(ex, nc, args):
+        ex.env['printer_used'] = which
+        flag, text = ex.env['printer_out']
+        return Tup([flag, text])
+    return f
+
+
+class ToStringDispatch(Harness):
+    name = 'bigrat.to_string.hands_on_a_correct_numeral'
+    props = ('C05',)
+    entry = 'BigRat::to_string'
+    loop_bound = 200
+    _concrete = None
+    describe = ('concrete companion (no symbolic variable): BigRat::to_string on values whose scientific numerals contain the digit `e`, zeros '
+                'before it and an exponent (bases 15, 16, 36) or zero padding (base 10), the two printers replaced by the correct numeral for the '
+                'value: the text handed on is still a correct numeral for the value (exact, or a truncation below one unit of its last digit)')
+    bounds = ['a fixed list of (base, value, numeral) triples']
+    expect_classes = ['return']
+    stubs = ((r'^BigRat::to_scientific$', _stub_printer('sci'), 'BigRat::to_scientific -> the correct numeral of the chosen value'),
+             (r'^BigRat::to_digits_impl$', _stub_printer('digits'), 'BigRat::to_digits_impl -> the correct numeral of the chosen value'))
+    CASES = [(15, Fraction(15 ** 10 + 14 * 15 ** 7 + 1), False, '1.00e000e10'),
+             (16, Fraction(0x100e5a3f1 * 16 ** 4) + Fraction(1, 3), False, '1.00e5a3e12'),
+             (36, Fraction(36 ** 9 + 14 * 36 ** 6 + 5), False, '1.00e000e9'),
+             (10, Fraction(10 ** 100 + 1), False, '1.000000e100'),
+             (10, Fraction(1234567891011), False, '1.234567e12'),
+             (15, Fraction(14 * 15 ** 10), True, 'e.0e10'),
+             (15, Fraction(1, 15 ** 12) * 14, True, 'e.0e-12')]
+
+    def build(self, ex, I):
+        base, v, exact, text = self.CASES[ex.choose(len(self.CASES), 'case')]
+        assert numeral_problem(text, exact, v, base, sci=True) is None, (base, v, text)
+        ex.env['printer_out'] = (exact, text)
+        ex.env['printer_used'] = None
+        return [ref(bigrat(v)), base, variant(ex, 'Digits', 'Default')], {'base': base, 'v': v, 'exact': exact, 'text': text}
+
+    def post(self, ex, ctx, outcome):
+        t = deref_all(outcome[1])
+        flag, text = t.fields[0], deref_all(t.fields[1])
+        flag = simp(flag) if is_z3(flag) else flag
+        if not isinstance(text, str) or not isinstance(flag, bool):
+            return [('the numeral handed on is concrete text', False)]
+        pr = numeral_problem(text, flag, ctx['v'], ctx['base'], sci=(ex.env.get('printer_used') == 'sci'))
+        return [('to_string(%s, base %d) hands on %r (printer said %r): a correct numeral%s' % (ctx['v'], ctx['base'], text, ctx['text'], '' if pr is None else ' - ' + pr), pr is None)]
+
+    def case(self, ctx, vals, label):
+        c = Harness.case(self, ctx, vals, label)
+        c['inputs'].update({'v': str(ctx['v']), 'base': ctx['base']})
+        return c
+
+    def native(self, inputs, label):
+        v = Fraction(inputs['v'])
+        return [{'mode': 'rat_to_string', 'fn': 'to_string', 'v': '%d/%d' % (v.numerator, v.denominator), 'base': int(inputs['base']), 'digits': 'Default'}]
+
+    def judge(self, inputs, label, obs):
+        o = obs[0]
+        if o.get('outcome') != 'ok':
+            return True, 'to_string: %s %s' % (o.get('outcome'), o.get('panic', ''))
+        pr = numeral_problem(o['text'], o['exact'], Fraction(inputs['v']), int(inputs['base']), sci=None)
+        return (pr is not None), pr or 'numeral %r denotes the value' % o['text']
+
+
+_c05_prev6 = harnesses
+
+
+def harnesses(tier):   # noqa: F811
+    return _c05_prev6(tier) + [ToStringDispatch()]
